@@ -186,7 +186,16 @@ class World:
         world = self
 
         async def fake_shell(cmd, *args, **kw):
-            return world.spawn(cmd, kw.get("cwd"))
+            # like asyncio: the process exists before the coroutine returns (it still waits for the pipes to be
+            # connected); a cancel arriving in that wait makes asyncio kill and reap the half-made process
+            p = world.spawn(cmd, kw.get("cwd"))
+            try:
+                await asyncio.sleep(0)
+            except asyncio.CancelledError:
+                if p.returncode is None:
+                    p._exit(-9)
+                raise
+            return p
 
         async def fake_exec(program, *args, **kw):
             script = args[-1] if args else program
@@ -354,7 +363,14 @@ class World:
             raise SubjectFailure("scheduler coroutine did not finish at a quiescent point")
         return t.result()
 
-    def submit(self, dep_idxs, time_limit, startfail, out=b"", err=b"", term_immune=False):
+    def step_loop(self, n):
+        """Run exactly n iterations of the event loop (the next step of the history then acts at whatever await
+        point the tasks have reached, instead of at a quiescent point)."""
+        for _ in range(n):
+            self.loop.call_soon(self.loop.stop)
+            self.loop.run_forever()
+
+    def submit(self, dep_idxs, time_limit, startfail, out=b"", err=b"", term_immune=False, pause=None):
         idx = len(self.tasks)
         deps = []
         for i in dep_idxs:
@@ -365,20 +381,38 @@ class World:
         # dots are legal in target names (families such as Map.sample_1, versions such as v1.2_align)
         name = f"t{idx}" if idx % 3 == 0 else f"t{idx - idx % 3}.part{idx % 3}" if idx % 3 == 1 else f"v{idx}.2_x"
         script = f"# task {idx}\nexit 0"
+        if idx % 5 == 4:
+            # a target without a spec (it only groups other targets): a script of nothing but white space
+            # (of a length of its own, so that the fake process can be told apart)
+            script = " " * (idx + 1) + "\n"
         # registered before the pool sees it: the task may be started while
         # enqueue_task is still being settled
         tm = TaskModel(idx, None, name, deps, time_limit, startfail, out, err)
         tm.term_immune = term_immune
         self.by_script[script] = tm
-        tid = self.run_coro(
-            self.sched.enqueue_task(name, script, self.dir, time_limit, list(deps))
-        )
+        if pause is None:
+            tid = self.run_coro(
+                self.sched.enqueue_task(name, script, self.dir, time_limit, list(deps))
+            )
+        else:
+            t = self.loop.create_task(self.sched.enqueue_task(name, script, self.dir, time_limit, list(deps)))
+            for _ in range(50):
+                if t.done():
+                    break
+                self.step_loop(1)
+            if not t.done():
+                raise SubjectFailure("enqueue_task did not return")
+            tid = t.result()
+            self.labels.add("next-step-at-an-await-point")
         if tid in self.by_tid:
             self.viol("C14", {"kind": "duplicate-id"}, f"task id {tid!r} handed out twice")
         tm.tid = tid
         self.tasks.append(tm)
         self.by_tid[tid] = tm
-        settle(self.loop)
+        if pause is None:
+            settle(self.loop)
+        else:
+            self.step_loop(pause)
         return tm
 
     def register_external(self, tid, name, script, deps, time_limit):
@@ -408,9 +442,18 @@ class World:
         if not self.tasks:
             return None
         tm = self.tasks[k % len(self.tasks)]
-        before = self.state(tm.tid)
-        self.run_coro(self.sched.cancel_task(tm.tid))
+        seen = {}
+
+        async def cancel_now():
+            # the state is read in the very loop iteration in which the request is handled: when the previous step
+            # did not let the loop come to rest, tasks may still move between this call and that iteration
+            seen["before"] = self.state(tm.tid)
+            seen["had_proc"] = tm.proc is not None
+            await self.sched.cancel_task(tm.tid)
+
+        self.run_coro(cancel_now())
         settle(self.loop)
+        before = seen["before"]
         after = self.state(tm.tid)
         if before in ("SUBMITTED", "RUNNING"):
             if tm.timed_out:
@@ -640,10 +683,14 @@ def run_history(case):
         for step in case["steps"]:
             w.step_no += 1
             op = step[0]
+            paused = op == "submit" and len(step) > 7 and step[7] is not None
+            if op in ("exit", "advance", "logs"):
+                settle(w.loop)  # only a cancel or another submission acts at the await point a paused submit left
             if op == "submit":
                 _, deps, tl, sf, osz, esz = step[:6]
                 tm = w.submit(deps, tl, sf, _payload(osz, b"o"), _payload(esz, b"e"),
-                              term_immune=bool(step[6]) if len(step) > 6 else False)
+                              term_immune=bool(step[6]) if len(step) > 6 else False,
+                              pause=step[7] if len(step) > 7 else None)
             elif op == "exit":
                 w.exit_proc(step[1], step[2])
             elif op == "cancel":
@@ -654,7 +701,9 @@ def run_history(case):
                 w.set_logs(step[1])
             else:
                 raise HarnessError(f"unknown step {step!r}")
-            w.check_point(seen_final)
+            if not paused:
+                w.check_point(seen_final)  # invariants are stated for quiescent points
+        settle(w.loop)
         w.set_logs(True)
         w.drain(seen_final)
         w.final_checks()
